@@ -1,2 +1,107 @@
-/- C15 correspondence driver (stub: replaced when the property's model is built) -/
-def main : IO Unit := IO.println "stub"
+import PnVerif.Model.Access
+import PnVerif.Spec.InBounds
+/-
+  C15 correspondence driver.  One request per line on stdin, one answer per line on stdout.
+
+    K strict classic isrec isread api nd shape.. S|SN start.. C|CN count.. T|TN stride..
+        -> <checkSCS c64> <checkSCS exact> <InBounds 0|1>
+    A strict classic isrec isread api begin xsz recsize numrecs nd shape.. S|SN.. C|CN.. T|TN..
+        -> <checkSCS c64> <numrecs after a put> <n> <off_1> .. <off_n>      (offsets only when accepted)
+
+  api: 1 var1, 2 vara, 3 vars, 4 varm.  For a record variable shape[0] is the current numrecs.
+-/
+open PnVerif.Access PnVerif.Spec.InBounds
+
+structure Parsed where
+  c : Ctx
+  r : Req
+  rest : List String
+
+def takeInts (n : Nat) (l : List String) : Option (List Int × List String) :=
+  if l.length < n then none else
+  let xs := (l.take n).filterMap String.toInt?
+  if xs.length = n then some (xs, l.drop n) else none
+
+def b (s : String) : Bool := s != "0"
+
+/-- parse `nd shape.. S|SN start.. C|CN count.. T|TN stride..` -/
+def parseReq (l : List String) : Option Req :=
+  match l with
+  | ndS :: l1 =>
+    match ndS.toNat? with
+    | none => none
+    | some nd =>
+      match takeInts nd l1 with
+      | none => none
+      | some (shape, l2) =>
+        let optVec (tag : String) (l : List String) : Option (Option (List Int) × List String) :=
+          match l with
+          | t :: l' =>
+            if t == tag then (takeInts nd l').map (fun p => (some p.1, p.2))
+            else if t == tag ++ "N" then some (none, l')
+            else none
+          | [] => none
+        match optVec "S" l2 with
+        | none => none
+        | some (st, l3) =>
+          match optVec "C" l3 with
+          | none => none
+          | some (ct, l4) =>
+            match optVec "T" l4 with
+            | none => none
+            | some (sd, _) =>
+              let z := List.replicate nd (0 : Int)
+              let stv := st.getD z
+              let ctv := ct.getD z
+              let sdv := sd.getD z
+              let dims := (List.range nd).map (fun i =>
+                ({ shape := shape.getD i 0, start := stv.getD i 0, count := ctv.getD i 0, stride := sdv.getD i 0 } : D))
+              some { dims := dims, startNull := st.isNone, hasCount := ct.isSome, hasStride := sd.isSome }
+  | [] => none
+
+def mkCtx (strict classic isrec isread api : String) : Ctx :=
+  { strict := b strict, classic := b classic, isRec := b isrec, isRead := b isread,
+    needCount := api == "2" || api == "3" || api == "4" }
+
+def doK (strict classic isrec isread api : String) (l : List String) : String :=
+  match parseReq l with
+  | none => "bad-op"
+  | some r =>
+    let c := mkCtx strict classic isrec isread api
+    let inb : Nat := if decide (InBounds c r) then 1 else 0
+    s!"{checkSCS c64 c r} {checkSCS exact c r} {inb}"
+
+def doA (strict classic isrec isread api : String) (l : List String) : String :=
+  match l with
+  | bg :: xs :: rs :: nr :: l' =>
+    match bg.toNat?, xs.toNat?, rs.toNat?, nr.toInt?, parseReq l' with
+    | some bg, some xs, some rs, some nr, some r =>
+      let c := mkCtx strict classic isrec isread api
+      let e := checkSCS c64 c r
+      if e != 0 then s!"{e} {nr} 0" else
+      let v : VarLayout := { begin := bg, xsz := xs, recsize := rs, isRec := c.isRec,
+                             shape := r.dims.map (fun d => d.shape.toNat) }
+      -- refuse to expand absurd requests (the harness never sends them, the F15 witness is one)
+      let n := r.dims.foldl (fun a d => a * (effCount r d).toNat) 1
+      if n > 100000 then s!"{e} {nr} -1" else
+      let fp := footprint v r
+      let nn := if c.isRec && !c.isRead then newNumrecs nr r else nr
+      s!"{e} {nn} {fp.length}" ++ String.join (fp.map (fun o => s!" {o}"))
+    | _, _, _, _, _ => "bad-op"
+  | _ => "bad-op"
+
+def step (line : String) : String :=
+  match (line.trimAscii.toString.splitOn " ").filter (· != "") with
+  | "K" :: strict :: classic :: isrec :: isread :: api :: l => doK strict classic isrec isread api l
+  | "A" :: strict :: classic :: isrec :: isread :: api :: l => doA strict classic isrec isread api l
+  | _ => "bad-op"
+
+partial def loop (h : IO.FS.Stream) (out : IO.FS.Stream) : IO Unit := do
+  let line ← h.getLine
+  if line.isEmpty then return ()
+  out.putStrLn (step line)
+  loop h out
+
+def main : IO Unit := do
+  let out ← IO.getStdout
+  loop (← IO.getStdin) out
